@@ -215,7 +215,7 @@ func (r Req) entryName() string {
 	n := map[string]string{"qr": "qr.Encode", "datamatrix": "datamatrix.Encode", "aztec": "aztec.Encode", "pdf417": "pdf417.Encode",
 		"code128": "code128.Encode", "code128nocs": "code128.EncodeWithoutChecksum", "code39": "code39.Encode", "code93": "code93.Encode",
 		"codabar": "codabar.Encode", "ean": "ean.Encode", "2of5": "twooffive.Encode"}[r.Fam]
-	if r.Scheme >= 0 {
+	if r.Scheme >= 0 || PreferWithColor {
 		n += "WithColor"
 	}
 	return n
